@@ -743,10 +743,28 @@ def process_consts(ck):
 SIG_COND = "MultivariateModel.conditional_sample"
 
 
-def cond_signature(q):
+CUT_CLASS = "conditioning quantile <= 0.99; sample follows the exact conditional truncated at the x_max the search returns"
+
+
+def cond_signature(q, cut=False):
     if q >= 0.999:
         return {"entry": SIG_COND, "predicate": "ks_vs_exact_conditional", "input_class": "conditioning quantile >= 0.999"}
+    if cut:
+        return {"entry": SIG_COND, "predicate": "ks_vs_exact_conditional", "input_class": CUT_CLASS}
     return {"entry": SIG_COND, "predicate": "ks_vs_exact_conditional", "input_class": "conditioning quantile <= 0.99"}
+
+
+def ref_xmax(h, hs):
+    """the x_max the documented search (first 100*0.7^k whose JOINT density is >= 1e-7, floor 0.05) returns for the
+    conditional of Tz given hs, computed with the closed-form joint density (independent of the code under test)"""
+    c = CONSTS
+    x = c["hi"]
+    while float(h.joint_pdf_hs_tz(hs, x)) < c["thr"]:
+        if x * c["mult"] > c["lo"]:
+            x = c["mult"] * x
+        else:
+            return c["lo"]
+    return x
 
 
 def probe_sampler(t, dim, given, n=200):
@@ -788,9 +806,17 @@ def process_conditional_stat(ck, case):
     ck.hyp_checked += 1
     ck.extra.setdefault("ks_conditional", {})[f"{case['model']['kind']}@{q}"] = round(d, 5)
     if d > eps:
-        ck.fail(sig, case, f"Hs = {hs!r} (quantile {q}): KS distance between {n} conditional samples of Tz and the exact "
-                           f"conditional cdf 1 - G_S|hs(F hs/t^2) is {d:.4f} > {eps:.4f}; sample range [{s.min():.3f}, {s.max():.3f}], "
-                           f"exact 0.001/0.999 quantiles [{cond_q(h, hs, 0.001):.3f}, {cond_q(h, hs, 0.999):.3f}]")
+        # is the sample exactly the conditional truncated at the x_max of the documented search? (then the only thing
+        # wrong is that the search stops at the first candidate INSIDE the region with density above the threshold)
+        xm = ref_xmax(h, hs)
+        mass = 1.0 - float(h.tz_cdf_given_hs(xm, hs))
+        d_cut = ks_uniform(np.minimum(u / (1.0 - mass), 1.0)) if mass < 1 else 1.0
+        cut = q < 0.999 and mass > 0 and d_cut <= eps and s.max() <= xm
+        ck.fail(cond_signature(q, cut), case,
+                f"Hs = {hs!r} (quantile {q}): KS distance between {n} conditional samples of Tz and the exact "
+                f"conditional cdf 1 - G_S|hs(F hs/t^2) is {d:.4f} > {eps:.4f}; sample range [{s.min():.3f}, {s.max():.3f}], "
+                f"exact 0.001/0.999 quantiles [{cond_q(h, hs, 0.001):.3f}, {cond_q(h, hs, 0.999):.3f}]; the documented search gives "
+                f"x_max = {xm!r} with exact conditional mass {mass:.4f} above it; KS to the conditional truncated there {d_cut:.4f}")
         return
     # repeatability and the thin wrappers (bulk only: cheap)
     again = run_conditional_sample(t, n, 1, hs, seed, 100)["sample"]
@@ -927,7 +953,7 @@ def process_model_stat(ck, case):
             warnings.simplefilter("ignore")
             cdf = np.asarray(t.cdf(ev.copy()), dtype=float)
         ck.hyp_checked += 2 * len(ev)
-        if not (np.abs(cdf - ref) <= 1e-5).all():
+        if not (np.abs(cdf - ref) <= 1e-3).all():  # nquad's own accuracy on this integrand is ~1e-5
             ck.fail({"entry": "TransformedModel.cdf", "predicate": "cdf_is_integral_of_pushforward"}, case,
                     f"cdf({ev.tolist()}) = {cdf.tolist()}, exact {ref.tolist()}")
         if not (np.abs(ec - cdf) <= eps).all():
@@ -992,9 +1018,15 @@ def process_iform(ck, case):
             break
     if worst:
         k, v0, b0, v1, b1 = worst
-        ck.fail({"entry": "IFORMContour(TransformedModel)", "predicate": "agrees_with_transformed_base_contour"}, case,
+        sig = {"entry": "IFORMContour(TransformedModel)", "predicate": "agrees_with_transformed_base_contour"}
+        xm = ref_xmax(h, float(c1[k, 0]))
+        mass = 1.0 - float(h.tz_cdf_given_hs(xm, float(c1[k, 0])))
+        if b0[0] <= v0 <= b0[1] and 0 < mass < 1 and b1[0] <= v1 / (1 - mass) <= b1[1] and c1[k, 1] <= xm:
+            sig["input_class"] = "contour point whose conditional sample is truncated at the x_max the search returns"
+        ck.fail(sig, case,
                 f"point {k}: {c1[k].tolist()} vs exactly transformed base point {exact_k[k].tolist()}; exact probabilities "
-                f"F_hs = {v0!r} (MC band {b0}), F_tz|hs = {v1!r} (MC band {b1})")
+                f"F_hs = {v0!r} (MC band {b0}), F_tz|hs = {v1!r} (MC band {b1}); documented x_max search for this Hs: {xm!r}, "
+                f"exact conditional mass above it {mass:.4f}")
 
 
 # =========================================================================== main
